@@ -237,6 +237,17 @@ func c01Ops(maxL int) []listOp {
 			}
 			return ""
 		}},
+		listOp{"presentation settings set and cleared again", 0, always, func(in *listInst) string {
+			// settings that have no bearing on content or on how positions are addressed, each in its set and
+			// in its documented unset form
+			in.s.SetDelimiter(";")
+			in.s.SetDelimiter("")
+			in.s.SetDelimiter(',')
+			in.s.SetDelimiter(nil)
+			in.s.SetSymbol("sym")
+			in.s.SetSymbol()
+			return ""
+		}},
 		listOp{"SetNegativeIndices(the other way)", 0, func(in *listInst, _ int) bool { return in.toggles }, func(in *listInst) string {
 			// options are settings, not content operations: an error on record has no say in them
 			in.m.neg = !in.m.neg
